@@ -326,6 +326,67 @@ def runBranch (env : Env) (body : Body) (cidOf : Nat → Bytes) (useMempool : Bo
       | none => none
       | some (W2, log') => some (W2, log ++ log')
 
+/-! ### Block headers: the chain id a received block carries -/
+
+/-- `BlockHeader.ChainID` of a block: a 4-byte little-endian version followed by the rest (magic, public /
+main-net flags, consensus name). Shorter byte strings are not headers `ValidChildOf` accepts. -/
+structure HdrCid where
+  version : Nat
+  rest : Bytes
+deriving DecidableEq, Repr
+
+/-- `Block.ValidChildOf(bestBlock)` = `types.ChainIdEqualWithoutVersion` (types/blockchain.go:339-349,
+types/genesis.go:198-203): everything but the version has to agree. -/
+def validChildOf (best cur : HdrCid) : Bool := best.rest == cur.rest
+
+/-- What `ChainService.addBlock` checks about the chain id of a received block's header (chainhandle.go, right after
+`ValidChildOf`; `BlockValidator.ValidateHeader` checks nothing about it): the id is this chain's up to the version, and
+the version is the one the node's hard-fork configuration gives for the block's number (`cfgVer` =
+`cfg.Hardfork.Version`, `height` = the block's number). The second conjunct is the repair of finding
+C04-header-fork-version-unchecked; without it (`acceptHeaderUnchecked`) the producer of a block chooses the rules
+it is executed under and the chain-id hash its transactions are bound to: `Props.C04.header_version_check_needed`. -/
+def acceptHeader (cfgVer : Nat → Nat) (best : HdrCid) (height : Nat) (h : HdrCid) : Bool :=
+  validChildOf best h && h.version == cfgVer height
+
+/-- The check as it was before the repair: `ValidChildOf` only. -/
+def acceptHeaderUnchecked (_cfgVer : Nat → Nat) (best : HdrCid) (_height : Nat) (h : HdrCid) : Bool :=
+  validChildOf best h
+
+inductive HErr
+  | header
+  | blk (e : BErr)
+deriving DecidableEq, Repr
+
+/-- One received block with its header: the header check, then `execBlock` with `bi.ChainIdHash()` where
+`bi = types.NewBlockHeaderInfo(block)` (chainhandle.go:694): the hash `hc` of the chain id bytes **the header carries**. -/
+def execHBlockWith (accept : (Nat → Nat) → HdrCid → Nat → HdrCid → Bool)
+    (env : Env) (body : Body) (hc : HdrCid → Bytes) (cfgVer : Nat → Nat) (useMempool : Bool) (hit : Tx → Bool)
+    (best : HdrCid) (height : Nat) (W : World) (hdr : HdrCid) (txs : List Tx) : Except HErr (World × List LogEntry) :=
+  if accept cfgVer best height hdr then
+    match execBlock H Verify env body (hc hdr) useMempool hit W txs with
+    | .ok r => .ok r
+    | .error e => .error (.blk e)
+  else .error .header
+
+def execHBlock := @execHBlockWith H Verify acceptHeader
+
+/-- A chain of received blocks on top of a block whose header carries `best` (block `i` is the first one; `hdrOf j` =
+header chain id of block `j`). The log pairs every executed transaction with the number of its block. -/
+def runChainWith (accept : (Nat → Nat) → HdrCid → Nat → HdrCid → Bool)
+    (env : Env) (body : Body) (hc : HdrCid → Bytes) (cfgVer : Nat → Nat) (hdrOf : Nat → HdrCid)
+    (useMempool : Bool) (hitOf : Nat → Tx → Bool) :
+    Nat → HdrCid → World → List (List Tx) → Option (World × List (Nat × LogEntry))
+  | _, _, W, [] => some (W, [])
+  | i, best, W, b :: bs =>
+    match execHBlockWith H Verify accept env body hc cfgVer useMempool (hitOf i) best i W (hdrOf i) b with
+    | .error _ => none
+    | .ok (W1, log) =>
+      match runChainWith accept env body hc cfgVer hdrOf useMempool hitOf (i + 1) (hdrOf i) W1 bs with
+      | none => none
+      | some (W2, log') => some (W2, log.map (fun e => (i, e)) ++ log')
+
+def runChain := @runChainWith H Verify acceptHeader
+
 /-! ### Pool admission -/
 
 inductive AErr
@@ -368,6 +429,25 @@ def poolAdmit (env : Env) (acceptCid : Bytes) (W : World) (inPool : Bytes → Bo
        | none => .ok acc)
     | some e => .error (.s e)
 
+/-- `MemPool.loadTxs`, one record of the dump file read at start-up: `verifyTx` (`Validate` for the accepted chain-id
+hash, signature, verified account of a name sender), then `put` — what `TxVerifier.Receive` does with a submitted
+transaction (`poolAdmit`; a record whose hash is already pooled is dropped by `put` instead of before `verifyTx`, the
+pool is the same). This is the repair of finding C04-loadtxs-unverified. -/
+def poolLoad := @poolAdmit H Verify
+
+/-- The record handling as it was before the repair: `mp.put(types.NewTransaction(&buf))` directly — no `verifyTx`
+(no `Validate`, no signature check, no verified account): `Props.C04.load_verify_needed`. -/
+def poolLoadUnverified (env : Env) (W : World) (inPool : Bytes → Bool)
+    (extra : World → Bytes → Tx → Option Nat) (t : Tx) : Except AErr Bytes :=
+  if inPool t.hash then .error .exists_ else
+  let acc := listAccount [] t
+  match validateSender env (W.nonce acc) (W.led.bal acc) t with
+  | some .nonceHigh | none =>
+    (match extra W acc t with
+     | some c => .error (.extra c)
+     | none => .ok acc)
+  | some e => .error (.s e)
+
 /-- A pooled transaction and the account it is filed under. -/
 structure PEntry where
   tx : Tx
@@ -386,6 +466,27 @@ def reoffer (env : Env) (acceptCid : Bytes) (W : World) (extra : World → Bytes
     match poolAdmit H Verify env acceptCid W (inPool P) extra t with
     | .ok acc => reoffer env acceptCid W extra (P ++ [⟨t, acc⟩]) ts
     | .error _ => reoffer env acceptCid W extra P ts
+
+/-- The verified account a pooled transaction carries (`SetVerifedAccount` in `MemPool.verifyTx`): the address the pool
+checked the signature of a name sender against — the account it is filed under; none for an address sender. -/
+def verifiedOf (p : PEntry) : Bytes := if p.tx.named then p.acc else []
+
+/-- The node's own block factory, `BlockGenerator.GatherTXs` (consensus/chain/tx.go:109-220): the candidates `MemPoolGet`
+returned (pool entries, in whatever order the pool's map yields them), each run through `executeTx` with its verified
+account on the running block state; a candidate that `executeTx` rejects is skipped (its partial effects are rolled back),
+the others form the block in this order. -/
+def gatherTxs (env : Env) (body : Body) (cid : Bytes) : World → List PEntry → World × List LogEntry
+  | W, [] => (W, [])
+  | W, p :: ps =>
+    match executeTx H env body cid W (verifiedOf p) p.tx with
+    | .error _ => gatherTxs env body cid W ps
+    | .ok (W1, e) => ((gatherTxs env body cid W1 ps).1, e :: (gatherTxs env body cid W1 ps).2)
+
+/-- `ConnectBlock` → `addBlock(block, bstate)` → `newBlockExecutor` with `commitOnly`: the node's own block is committed
+as the factory executed it — **no block-level signature check**; all authorisation rests on the pool's gate. -/
+def produceBlock (env : Env) (body : Body) (cid : Bytes) (W : World) (cands : List PEntry) : World × List LogEntry :=
+  let r := gatherTxs H env body cid W cands
+  ({ r.1 with led := commitNames r.1.led }, r.2)
 
 end
 
@@ -471,7 +572,9 @@ def stdBody : Body := fun l t sender =>
   else if t.type = 6 then
     (match t.cmd with
      | .deploy addr =>
-       if !(l.creator addr).isEmpty then .reject (.body cUnsupported)
+       -- `state.CreateAccountState`: "account already exists" when the address has any state (here: it is a contract
+       -- already, or it holds a balance — somebody funded the address before the deployment)
+       if !(l.creator addr).isEmpty || l.bal addr != 0 then .reject (.body cUnsupported)
        else
          let l1 := move l sender addr amount
          let cr := upd l1.creator addr sender
